@@ -22,7 +22,7 @@ def blank(i, op):
             "eq_rev": False, "js2_ok": False, "js2": V("none"), "behaves_same": False,
             "rcond": {"t": "null"}, "proj_rb": {"t": "null"}, "rparts": [], "from_specs": False, "ppath_rb": NULLPATH,
             "probes": [], "rule": {"rparts": [], "dt": "none", "mt": "none", "rcond": {"t": "null"}, "cast": []},
-            "prule_rb": NULLRULE, "rules": [], "prules_rb": [], "exc": "", "kw_same": True}
+            "prule_rb": NULLRULE, "rules": [], "prules_rb": [], "exc": "", "kw_same": True, "snapshot_ok": True}
 
 
 def json_roundtrip(js):
@@ -214,6 +214,14 @@ def rt_schema_event(i, rrs):
     jsk = resk[0] if isinstance(resk, tuple) and len(resk) == 2 else resk
     e["kw_same"] = outk == "ok" and doc_snap_noid(jsk) == doc_snap_noid(js) and \
         (not isinstance(resk, tuple) or resk[1] is sd) and sd == {"k": 1}
+    # what was written for a schema stays true of it: a later add_schema on ANOTHER holder of the same rules (a shallow
+    # copy) does not change this schema
+    import copy as _copy
+    other = _copy.copy(obj)
+    outa, _ = outcome_of(lambda: other.add_schema(valida.Schema([valida.Rule(path=("zz",), condition=valida.Value.truthy())]),
+                                                 valida.DataPath("q")))
+    outj, js_again = outcome_of(lambda: obj.to_json_like())
+    e["snapshot_ok"] = outa == "ok" and outj == "ok" and doc_snap_noid(js_again) == doc_snap_noid(js)
     e["json_ok"], back = json_roundtrip(js)
     if not e["json_ok"]:
         return e
